@@ -53,9 +53,58 @@ package client
 //@ site IndexByDate#1 as ix
 //@ site addChainWithRetry#1 as sub
 //@ requires tlc != nil && len(tlc.Clients) == len(tlc.intervals)
-//@ requires forall j int :: 0 <= j && j < len(tlc.Clients) ==> tlc.Clients[j] != nil
+//@ requires forall j int :: 0 <= j && j < len(tlc.Clients) ==> tlc.Clients[j] != nil && tlc.Clients[j].logger != nil && tlc.Clients[j].backoff != nil && tlc.Clients[j].httpClient != nil
 //@ ensures [empty-chain-refused] len(chain) == 0 ==> result1 != nil && !sub.called
 //@ ensures [unroutable-certificate-refused] ix.called && ix.res1 != nil ==> result1 != nil && !sub.called
 //@ ensures [result-is-the-shards-answer] sub.called ==> result0 == sub.res0 && result1 == sub.res1
 //@ at ix assert [routes-by-the-leaf-notafter] ix.when == pc.res0.NotAfter && pc.asn1Data == chain[0].Data
 //@ at sub assert [submits-to-the-shard-chosen-by-date] sub.c == tlc.Clients[ix.res0] && sub.chain == chain && sub.ctype == ctype && sub.path == path
+
+//@ func (*LogClient).VerifySTHSignature
+//@ props C12 C05
+//@ pure
+//@ site VerifySTHSignature#1 as v
+//@ requires c != nil
+//@ ensures [without-a-key-nothing-can-be-checked] old(c.Verifier) == nil ==> result == nil && !v.called
+//@ ensures [with-a-key-the-verifier-decides] old(c.Verifier) != nil ==> v.called && result == v.res
+//@ at v assert [verifies-the-sth-given] v.sth == sth && v.s == *c.Verifier
+
+//@ func (*LogClient).VerifySCTSignature
+//@ props C12 C05
+//@ modifies nothing
+//@ frame-trusted writes only the leaf it has just built (fresh memory)
+//@ site MerkleTreeLeafFromRawChain#1 as ml
+//@ site VerifySCTSignature#1 as v
+//@ requires c != nil
+//@ ensures [without-a-key-nothing-can-be-checked] old(c.Verifier) == nil ==> result == nil && !v.called
+//@ ensures [leaf-build-failure-is-an-error] ml.called && ml.res1 != nil ==> result != nil && !v.called
+//@ ensures [with-a-key-the-verifier-decides] old(c.Verifier) != nil && ml.res1 == nil ==> v.called && result == v.res
+//@ at ml assert [entry-rebuilt-from-the-submitted-chain-at-the-sct-timestamp] ml.rawChain == certData && ml.etype == ctype && ml.timestamp == sct.Timestamp
+//@ at v assert [verifies-that-sct-over-that-entry-with-the-sct-extensions] v.sct == sct && v.entry.Leaf == *ml.res0 && ml.res0.TimestampedEntry.Extensions == sct.Extensions && v.s == *c.Verifier
+
+//@ func (*LogClient).GetSTH
+//@ props C12
+//@ site GetAndParse#1 as gp
+//@ site ToSignedTreeHead#1 as ts
+//@ site VerifySTHSignature#1 as vs
+//@ requires c != nil && c.httpClient != nil
+//@ ensures [never-an-unverified-sth] result1 == nil ==> result0 != nil && ts.called && ts.res1 == nil && result0 == ts.res0 && vs.called && vs.res == nil
+//@ ensures [transport-error-passed-on] gp.res2 != nil ==> result1 == gp.res2 && result0 == nil
+//@ ensures [later-errors-carry-status-and-body] (ts.called && ts.res1 != nil) || (vs.called && vs.res != nil) ==> result0 == nil && typeof(result1) == jsonclient.RspError && as(result1, jsonclient.RspError).StatusCode == after(gp, gp.res0.StatusCode) && as(result1, jsonclient.RspError).Body == gp.res1
+//@ at vs assert [verifies-the-sth-it-will-return] vs.sth == *ts.res0 && vs.c == c
+
+//@ func (*LogClient).addChainWithRetry
+//@ props C12
+//@ arith int
+//@ site PostAndParseWithRetry#1 as pp
+//@ site tls.Unmarshal#1 as um
+//@ site DecodeString#1 as dec
+//@ site VerifySCTSignature#1 as vs
+//@ requires c != nil && c.logger != nil && c.backoff != nil && c.httpClient != nil
+//@ loop 1 invariant len(req.Chain) == rangeindex + 1 && (forall j int :: 0 <= j && j <= rangeindex ==> req.Chain[j] == chain[j].Data)
+//@ ensures [never-an-unverified-sct] result1 == nil ==> result0 != nil && vs.called && vs.res == nil && um.res1 == nil && len(um.res0) == 0 && dec.res1 == nil
+//@ ensures [transport-error-passed-on] pp.res2 != nil ==> result1 == pp.res2 && result0 == nil
+//@ ensures [malformed-reply-errors-carry-status-and-body] pp.res2 == nil && result1 != nil ==> result0 == nil && typeof(result1) == jsonclient.RspError && as(result1, jsonclient.RspError).StatusCode == after(pp, pp.res0.StatusCode) && as(result1, jsonclient.RspError).Body == pp.res1
+//@ at pp assert [submits-the-whole-chain-in-order] len(req.Chain) == len(chain) && (forall j int :: 0 <= j && j < len(chain) ==> req.Chain[j] == chain[j].Data) && pp.path == path
+//@ at vs assert [verifies-the-sct-it-will-return-for-the-submitted-chain-and-type] vs.sct == *sct && vs.ctype == ctype && vs.certData == chain && vs.c == c
+//@ at vs assert [sct-fields-from-the-reply] sct.SCTVersion == resp.SCTVersion && sct.Timestamp == resp.Timestamp && sct.Extensions == dec.res0 && sct.Signature == ds
